@@ -81,7 +81,7 @@ class C17(Prop):
                 tg(0.5)
                 arg = None if kind in ('success', 'uxsuccess') else ['reason', chars('r')] if kind == 'skip' else ['exc', 'real']
                 if rng.random() < 0.2:
-                    arg = ['details', R.gen_details(rng, allow_empty=False, nonempty_text=True)]   # (C08 finding tbtEmptyDetails stays out)
+                    arg = ['details', R.gen_details(rng, allow_empty=False, nonempty_text=True)]   # empty details / attachments are C08's business
                 h.append(['add', kind, tid, arg])
                 tg(0.3)
                 h.append(['stopTest', tid])
@@ -167,7 +167,7 @@ class C17(Prop):
         for h in R.shrink_hist(hist):
             if 'tbt' in kinds and any(c[0] == 'add' and isinstance(c[3], list) and c[3][0] == 'details' and
                                       (not c[3][1] or any(not d[1][1] for d in c[3][1])) for c in h):
-                continue                                       # C08 finding tbtEmptyDetails stays out
+                continue                                       # empty details / attachments are C08's business
             if ('tbt' in kinds and not R.wf_hist(h)) or ('e2s' in kinds and not R.starts_run(h)):
                 continue
             yield [shape, h]
